@@ -340,8 +340,8 @@ def build4(m):
                  # tight/loose hand-back: an item that ends after trailing blank lines (and is not
                  # directly followed by a sibling marker) leaves the last of them unconsumed, so the
                  # enclosing tokenize_block sees the blank line that makes its container loose
-                 ('implies(g_nc > 0 and is_none(result[1]), lines._index == g_idx - 1)', 'C03'),
-                 ('implies(g_nc == 0 and g_idx >= 0, lines._index == g_idx)', 'C03')],
+                 ('implies(g_nc > 0 and is_none(result[1]), lines._index == g_idx - 1)', ['C03', 'C02']),
+                 ('implies(g_nc == 0 and g_idx >= 0, lines._index == g_idx)', ['C03', 'C02'])],
         ensures_exc=['CURSOR_OK(lines)'],
         modifies=['lines._index', 'G:SCRATCH', 'G:FOOTNOTES'] + NESTED,
         allow_exc=['CustomTokenError'],
